@@ -518,12 +518,17 @@ class reader( object ):
                     n,(ts,sn,js) = parse_record( fd, n=n, encoding=encoding )
                 except StopIteration:
                     break
-                except Exception as exc:
+                except ValueError as exc:
                     # The line (already consumed) has no parsable timestamp/serial, or is not in the
                     # expected encoding.  Report that no record could be parsed; the caller may power thru.
                     n	       += 1
                     log.warning( "%s Playback skipping %s, line %d: %s", self, self.name+f, n, exc )
                     ts,js	= None,None
+                except Exception as exc:
+                    # Not a line, but the stream itself failed (eg. a truncated or damaged compressed
+                    # file); every further read would fail the same way.  Done with this file.
+                    log.warning( "%s Playback abandoning %s, after line %d: %s", self, self.name+f, n, exc )
+                    break
 
                 # a valid (ts,js) has been parsed; loop to advancing historical time, and return it
                 # when appropriate.
